@@ -179,10 +179,10 @@ PROPERTIES["C01"] = {
     "modes": [
         {"mode": "c01", "harness": "writer", "runs": {"quick": 25000, "thorough": 800000}},
     ],
-    "expected_probes": ["round trip compared object by object"],
+    "expected_probes": ["round trip compared object by object", "more than 8000 objects of one type (PBF block boundary)"],
     "components_real": WRITER_REAL,
     "components_stubbed": READER_STUB,
-    "assumptions": COMMON_ASSUMPTIONS + ["restricted claim: the input/option space is sampled by the workload generator; data sets have up to 120 objects, so the 8000-entity and 32 MiB block limits are checked by the framing parser but not provoked", "the per-format mask (which fields a format/option carries) is hand-derived from the encoders; each entry cites its source line"],
+    "assumptions": COMMON_ASSUMPTIONS + ["restricted claim: the input/option space is sampled by the workload generator; data sets have up to 120 objects, plus one run in 40 with 8000-9200 nodes so that the 8000-entities-per-block boundary is crossed (checked by the independent framing parser); the 32 MiB block limit is checked by the framing parser but never provoked", "the per-format mask (which fields a format/option carries) is hand-derived from the encoders; each entry cites its source line"],
 }
 
 PROPERTIES["C12"] = {
